@@ -60,10 +60,49 @@ type graphCase struct {
 	Threw  bool     `json:"threw"`
 	Ns     string   `json:"ns"`
 	Req    string   `json:"req"`
+	Feat   []string `json:"feat"` // the specification's feature labels (ModuleSem!Features)
+	NsStat string   `json:"nsStatic"` // the entry's namespace restricted to the names known without running (no export * from CommonJS)
 
 	id     string
 	labels []string
 	src    string // generator config
+}
+
+// a GRAPH record of ModuleSem in Mode "gen": a graph that links, not yet run
+type graphSpec struct {
+	Spec   string   `json:"spec"`
+	Kinds  []string `json:"kinds"` // raw kinds (preset leaves by name)
+	Bodies [][]stmt `json:"bodies"`
+	Feat   []string `json:"feat"`
+
+	id  string
+	src string
+}
+
+func realKind(k string) string {
+	switch k {
+	case "Lesm", "Ldyn":
+		return "esm"
+	case "Lcjs":
+		return "cjs"
+	}
+	return k
+}
+
+func graphID(kinds []string, bodies [][]stmt) string {
+	real := make([]string, len(kinds))
+	for i, k := range kinds {
+		real[i] = realKind(k)
+	}
+	if bodies == nil {
+		bodies = [][]stmt{}
+	}
+	for i := range bodies {
+		if bodies[i] == nil {
+			bodies[i] = []stmt{}
+		}
+	}
+	return core.Hash(map[string]interface{}{"k": real, "b": bodies})
 }
 
 type buildCfg struct {
@@ -173,7 +212,9 @@ func materialise(g *graphCase, scheme int) (map[string]string, string) {
 				case "rex":
 					fmt.Fprintf(&sb, "export { %s } from %q%s;\n", s.X, spec, attr)
 				case "star":
-					fmt.Fprintf(&sb, "export * from %q;\n", spec)
+					fmt.Fprintf(&sb, "export * from %q%s;\n", spec, attr)
+				case "starns":
+					fmt.Fprintf(&sb, "export * as ns from %q%s;\n", spec, attr)
 				case "dyn":
 					fmt.Fprintf(&sb, "__dyn(%q, import(%q%s));\n", id, spec, dynAttr)
 				case "throw":
@@ -241,7 +282,7 @@ func labelsOf(g *graphCase) []string {
 				}
 			}
 			switch s.Op {
-			case "star":
+			case "star", "starns":
 				set["star"] = true
 			case "dyn":
 				set["dynamic-import"] = true
@@ -551,6 +592,15 @@ func compare(r *core.Run, p *prepared, res *nodeResult, st *stats) {
 		byName[res.Bundles[i].Name] = &res.Bundles[i]
 	}
 	entryKind := g.Kinds[0]
+	ambStarCjs, cycDyn := false, false
+	for _, f := range g.Feat {
+		if f == "amb:star>cjs" {
+			ambStarCjs = true
+		}
+		if f == "cyc:esmdyn" {
+			cycDyn = true
+		}
+	}
 	for _, c := range p.cfgs {
 		key := map[string]interface{}{"graph": g.id, "format": c.Format, "platform": c.Platform, "minify": c.Minify, "pattern": pattern(g),
 			"cycle": hasLabel(g, "cycle"), "throws": hasLabel(g, "throw"), "mixed": hasLabel(g, "mixed")}
@@ -592,6 +642,16 @@ func compare(r *core.Run, p *prepared, res *nodeResult, st *stats) {
 			what := fmt.Sprintf("probe trace differs: native [%s] bundle(%s) [%s]", gotTrace, c.name(), t)
 			key["kind"] = "trace"
 			key["signature"] = signature(g, nat.Trace, o.Trace)
+			if ambStarCjs && firstDiffExtraKeys(nat.Trace, o.Trace) {
+				// the graph has a name that is ambiguous only through a CommonJS export-star
+				// source and the first disagreement is an object with additional keys in the bundle
+				key["star_cjs_ambiguity"] = true
+			}
+			if cycDyn && firstDiffExtraKeys(o.Trace, nat.Trace) {
+				// an ES module with a run-time export set is in an import cycle and the first
+				// disagreement is an object that lacks keys in the bundle (looked at too early)
+				key["dyn_exports_in_cycle"] = true
+			}
 			r.Violation(key, what, replay(what, o))
 			continue
 		}
@@ -625,9 +685,94 @@ func compare(r *core.Run, p *prepared, res *nodeResult, st *stats) {
 		if want != got {
 			what := fmt.Sprintf("entry exports differ: native %s bundle(%s) %s", want, c.name(), got)
 			key["kind"] = "exports"
+			if ambStarCjs && extraKeysOnly(want, got) {
+				key["star_cjs_ambiguity"] = true
+			}
+			if c.Format == "esm" && entryKind == "esm" && g.NsStat != "" && g.NsStat != g.Ns && got == g.NsStat {
+				// exactly the names that come through "export * from <CommonJS>" are missing
+				key["kind"] = "exports-star-cjs-in-esm-output"
+				what = fmt.Sprintf("an esm bundle cannot carry the entry point's export * from a CommonJS module: native %s bundle(%s) %s", want, c.name(), got)
+			}
 			r.Violation(key, what, replay(what, o))
 		}
 	}
+}
+
+// fields splits a rendered object "{k:v,...}" into its top-level fields (nil if v is not an object)
+func fields(v string) map[string]string {
+	if len(v) < 2 || v[0] != '{' || v[len(v)-1] != '}' {
+		return nil
+	}
+	out := map[string]string{}
+	depth, start, colon := 0, 1, -1
+	flush := func(end int) {
+		if colon > 0 {
+			out[v[start:colon]] = v[colon+1 : end]
+		}
+	}
+	for i := 1; i < len(v)-1; i++ {
+		switch v[i] {
+		case '{':
+			depth++
+		case '}':
+			depth--
+		case ':':
+			if depth == 0 && colon < 0 {
+				colon = i
+			}
+		case ',':
+			if depth == 0 {
+				flush(i)
+				start, colon = i+1, -1
+			}
+		}
+	}
+	flush(len(v) - 1)
+	return out
+}
+
+// extends: got has every field of nat with the same value, or, where both
+// values are objects, an extension of it; more reports an additional key
+func extends(nat, got string) (ok bool, more bool) {
+	if nat == got {
+		return true, false
+	}
+	a, b := fields(nat), fields(got)
+	if a == nil || b == nil {
+		return false, false
+	}
+	more = len(b) > len(a)
+	for k, av := range a {
+		bv, has := b[k]
+		if !has {
+			return false, false
+		}
+		o, m := extends(av, bv)
+		if !o {
+			return false, false
+		}
+		more = more || m
+	}
+	return true, more
+}
+
+// extraKeysOnly: both values are objects and the bundle's differs from the
+// native one only by additional keys (at any nesting level)
+func extraKeysOnly(nat, got string) bool {
+	ok, more := extends(nat, got)
+	return ok && more
+}
+
+func firstDiffExtraKeys(nat, got [][2]string) bool {
+	for i := 0; i < len(nat) && i < len(got); i++ {
+		if nat[i][0] != got[i][0] {
+			return false
+		}
+		if nat[i][1] != got[i][1] {
+			return extraKeysOnly(nat[i][1], got[i][1])
+		}
+	}
+	return false
 }
 
 // pattern is a coarse structural class of a graph, part of the violation key
@@ -720,31 +865,55 @@ type genCfg struct {
 	Timeout  int
 	Thorough bool // only in the thorough tier
 	Quick    bool // only in the quick tier (subsumed by a thorough config)
-	Quota    int  // quick tier: number of cases taken from this config (0 = all)
+	Quota    int  // number of graphs taken from this config by seeded sampling (0 = all), after the per-feature picks
+	Workers  int  // TLC workers (0 = the tier's default)
 }
 
-func generate(r *core.Run, gc genCfg, workers int) []*graphCase {
-	var cases []*graphCase
+// runTLC runs one ModuleSem configuration (retrying once when the JVM was
+// killed from outside: the machine is shared) and hands every exported record
+// to onRec.  reset is called before a retry.
+func runTLC(r *core.Run, what string, mk func() tlcrun.Options, reset func()) *tlcrun.Result {
+	res, err := tlcrun.Run(r, mk())
+	if err != nil && (res == nil || !res.TimedOut) {
+		r.Logf("TLC %s failed (%v); retrying once", what, firstLine(err.Error()))
+		reset()
+		res, err = tlcrun.Run(r, mk())
+	}
+	if err != nil {
+		r.Infra("%v", err)
+		return nil
+	}
+	if res.Violated != "" {
+		// guard 3 of DESIGN.md section 2: a violation on the model alone is a spec error, not a verdict
+		r.Infra("model ModuleSem/%s violates %s on the design alone (spec error, not a verdict):\n%s", what, res.Violated, tailLines(res.Output, 60))
+		return nil
+	}
+	return res
+}
+
+// stage 1: TLC (Mode "gen") enumerates / samples the graph family of one
+// configuration; every graph comes with the specification's feature labels
+func generate(r *core.Run, gc genCfg, workers int) []*graphSpec {
+	var graphs []*graphSpec
 	var mu sync.Mutex
 	seen := map[string]bool{}
 	mk := func() tlcrun.Options {
 		o := tlcrun.Options{Module: "ModuleSem", Config: gc.Config, Workers: workers, TimeoutSec: gc.Timeout,
 			OnCase: func(raw []byte) {
-				var g graphCase
-				if err := json.Unmarshal(raw, &g); err != nil {
-					r.Infra("undecodable CASE record: %v", err)
+				var g graphSpec
+				if err := json.Unmarshal(raw, &g); err != nil || g.Spec != "ModuleSem.graph" {
+					r.Infra("undecodable GRAPH record: %v", err)
 					return
 				}
-				g.id = core.Hash(map[string]interface{}{"k": g.Kinds, "b": g.Bodies})
+				g.id = graphID(g.Kinds, g.Bodies)
 				mu.Lock()
 				defer mu.Unlock()
 				if seen[g.id] {
 					return
 				}
 				seen[g.id] = true
-				g.labels = labelsOf(&g)
 				g.src = gc.Config
-				cases = append(cases, &g)
+				graphs = append(graphs, &g)
 			}}
 		if gc.Simulate != "" {
 			o.Simulate = gc.Simulate
@@ -754,22 +923,12 @@ func generate(r *core.Run, gc genCfg, workers int) []*graphCase {
 		}
 		return o
 	}
-	res, err := tlcrun.Run(r, mk())
-	if err != nil && (res == nil || !res.TimedOut) {
-		// the machine is shared: a JVM killed from outside is retried once
-		r.Logf("TLC %s failed (%v); retrying once", gc.Config, firstLine(err.Error()))
+	res := runTLC(r, gc.Config, mk, func() {
 		mu.Lock()
-		cases, seen = nil, map[string]bool{}
+		graphs, seen = nil, map[string]bool{}
 		mu.Unlock()
-		res, err = tlcrun.Run(r, mk())
-	}
-	if err != nil {
-		r.Infra("%v", err)
-		return nil
-	}
-	if res.Violated != "" {
-		// guard 3 of DESIGN.md section 2: a violation on the model alone is a spec error, not a verdict
-		r.Infra("model ModuleSem/%s violates %s on the design alone (spec error, not a verdict):\n%s", gc.Config, res.Violated, tailLines(res.Output, 60))
+	})
+	if res == nil {
 		return nil
 	}
 	if gc.Simulate != "" {
@@ -780,50 +939,229 @@ func generate(r *core.Run, gc genCfg, workers int) []*graphCase {
 			r.AddStates(n, n)
 		}
 	}
-	r.Logf("TLC ModuleSem/%s: %d generated, %d distinct, depth %d, %d cases, %.1fs", gc.Config, res.Generated, res.Distinct, res.Depth, len(cases), res.Wall.Seconds())
+	r.Logf("TLC ModuleSem/%s (generate): %d generated, %d distinct, depth %d, %d graphs, %.1fs", gc.Config, res.Generated, res.Distinct, res.Depth, len(graphs), res.Wall.Seconds())
 	r.Set("tlc_"+strings.TrimSuffix(strings.TrimPrefix(gc.Config, "ModuleSem."), ".cfg"),
-		map[string]interface{}{"generated": res.Generated, "distinct": res.Distinct, "depth": res.Depth, "cases": len(cases), "wall_s": res.Wall.Seconds()})
-	return cases
+		map[string]interface{}{"generated": res.Generated, "distinct": res.Distinct, "depth": res.Depth, "graphs": len(graphs), "wall_s": res.Wall.Seconds()})
+	sort.Slice(graphs, func(i, j int) bool { return graphs[i].id < graphs[j].id })
+	return graphs
 }
 
-func firstLine(s string) string {
-	if i := strings.IndexByte(s, '\n'); i >= 0 {
-		return s[:i]
+// stage 2: TLC (Mode "run") runs the reference loader on the selected graphs,
+// checks the invariants of ModuleSem on every state of these runs and exports
+// the predicted observation of every graph inside the generated family
+func runSpec(r *core.Run, sel []*graphSpec, shards, workers int) []*graphCase {
+	if len(sel) == 0 {
+		return nil
 	}
-	return s
+	if shards > len(sel) {
+		shards = 1
+	}
+	byID := map[string]*graphSpec{}
+	for _, g := range sel {
+		byID[g.id] = g
+	}
+	out := make([][]*graphCase, shards)
+	var gen, dist int64
+	var mu sync.Mutex
+	core.Parallel(shards, shards, func(sh int) {
+		var sb strings.Builder
+		n := 0
+		for i := sh; i < len(sel); i += shards {
+			line, _ := json.Marshal(map[string]interface{}{"kinds": sel[i].Kinds, "bodies": sel[i].Bodies})
+			sb.Write(line)
+			sb.WriteByte('\n')
+			n++
+		}
+		var cases []*graphCase
+		var cmu sync.Mutex
+		mk := func() tlcrun.Options {
+			return tlcrun.Options{Module: "ModuleSem", Config: "ModuleSem.run.cfg", Workers: workers, TimeoutSec: 1500,
+				Files: map[string]string{"c02_graphs.ndjson": sb.String()},
+				OnCase: func(raw []byte) {
+					var g graphCase
+					if err := json.Unmarshal(raw, &g); err != nil || g.Spec != "ModuleSem" {
+						r.Infra("undecodable CASE record: %v", err)
+						return
+					}
+					g.id = graphID(g.Kinds, g.Bodies)
+					src := byID[g.id]
+					if src == nil {
+						r.Infra("ModuleSem ran a graph that was not selected: %s", string(raw))
+						return
+					}
+					g.src = src.src
+					g.labels = labelsOf(&g)
+					cmu.Lock()
+					cases = append(cases, &g)
+					cmu.Unlock()
+				}}
+		}
+		res := runTLC(r, fmt.Sprintf("run shard %d", sh), mk, func() {
+			cmu.Lock()
+			cases = nil
+			cmu.Unlock()
+		})
+		if res == nil {
+			return
+		}
+		mu.Lock()
+		gen += res.Generated
+		dist += res.Distinct
+		mu.Unlock()
+		r.Logf("TLC ModuleSem/run shard %d: %d graphs, %d generated, %d distinct, depth %d, %d inside the family, %.1fs", sh, n, res.Generated, res.Distinct, res.Depth, len(cases), res.Wall.Seconds())
+		out[sh] = cases
+	})
+	var all []*graphCase
+	seen := map[string]bool{}
+	for _, cs := range out {
+		for _, g := range cs {
+			if !seen[g.id] {
+				seen[g.id] = true
+				all = append(all, g)
+			}
+		}
+	}
+	sort.Slice(all, func(i, j int) bool { return all[i].id < all[j].id })
+	r.Set("tlc_run", map[string]interface{}{"graphs_given": len(sel), "generated": gen, "distinct": dist, "graphs_inside_family": len(all)})
+	return all
 }
 
-func tailLines(s string, n int) string {
-	lines := strings.Split(s, "\n")
-	if len(lines) > n {
-		lines = lines[len(lines)-n:]
+// selectGraphs: feature-label coverage first, then seeded sampling.  For every
+// feature label of the specification that the generated family inhabits,
+// perLabel graphs carrying it are taken (seeded choice); then every generator
+// contributes a seeded sample up to its quota.
+func selectGraphs(r *core.Run, gens []genCfg, results [][]*graphSpec, perLabel int) ([]*graphSpec, map[string]int) {
+	seen := map[string]bool{}
+	var pool []*graphSpec
+	for i := range gens {
+		var own []*graphSpec
+		for _, g := range results[i] {
+			if !seen[g.id] {
+				seen[g.id] = true
+				own = append(own, g)
+			}
+		}
+		results[i] = own
+		pool = append(pool, own...)
 	}
-	return strings.Join(lines, "\n")
+	sort.Slice(pool, func(i, j int) bool { return pool[i].id < pool[j].id })
+	byFeat := map[string][]*graphSpec{}
+	for _, g := range pool {
+		for _, f := range g.Feat {
+			byFeat[f] = append(byFeat[f], g)
+		}
+	}
+	var feats []string
+	inhabited := map[string]int{}
+	for f, gs := range byFeat {
+		feats = append(feats, f)
+		inhabited[f] = len(gs)
+	}
+	sort.Strings(feats)
+	rnd := rand.New(rand.NewSource(r.Seed*7919 + 17))
+	picked := map[string]bool{}
+	var sel []*graphSpec
+	take := func(g *graphSpec) {
+		if !picked[g.id] {
+			picked[g.id] = true
+			sel = append(sel, g)
+		}
+	}
+	for _, f := range feats {
+		gs := byFeat[f]
+		// prefer small graphs (fewest statements) half of the time: they isolate the feature
+		perm := rnd.Perm(len(gs))
+		n := 0
+		for _, k := range perm {
+			if n >= perLabel {
+				break
+			}
+			if !picked[gs[k].id] {
+				take(gs[k])
+				n++
+			}
+		}
+	}
+	nFeat := len(sel)
+	for i, gc := range gens {
+		own := results[i]
+		rnd := rand.New(rand.NewSource(r.Seed*7919 + int64(len(own)) + int64(i)))
+		perm := rnd.Perm(len(own))
+		n := 0
+		for _, k := range perm {
+			if gc.Quota > 0 && n >= gc.Quota {
+				break
+			}
+			if !picked[own[k].id] {
+				take(own[k])
+				n++
+			}
+		}
+	}
+	r.Logf("%d graphs generated, %d feature labels inhabited; selected %d by label + %d by seeded sampling", len(pool), len(feats), nFeat, len(sel)-nFeat)
+	r.Set("graphs_generated_by_tlc", len(pool))
+	r.Set("features_inhabited", inhabited)
+	return sel, inhabited
+}
+
+// feature labels that every run must generate and replay: the demand-loaded
+// (wrapped) module x statement kind x target class matrix; an empty cell here
+// means the generator configurations no longer reach the class
+func requiredFeatures() []string {
+	var out []string
+	for _, w := range []string{"dyn", "req", "dep"} {
+		for _, op := range []string{"imp", "rns", "star", "starns"} {
+			for _, c := range []string{"esm+lazy", "esmdyn+lazy", "cjs", "json"} {
+				if w == "dep" && c == "json" {
+					continue // needs a third generated module: thorough only (gwrapT)
+				}
+				out = append(out, w+":"+op+">"+c)
+			}
+		}
+		out = append(out, w+":dyn>esm+lazy")
+	}
+	for _, op := range []string{"req", "dyn"} {
+		for _, c := range []string{"esm+lazy", "esmdyn+lazy", "cjs", "json"} {
+			out = append(out, "cjs:"+op+">"+c)
+		}
+	}
+	// a module in a static cycle with a demand-loaded one; hoisted code that
+	// mentions a demand-loaded module
+	for _, op := range []string{"imp", "rns", "star", "starns"} {
+		out = append(out, "cyc:"+op+">esm+lazy", "hoisted:"+op+">esm+lazy", "hoisted:"+op+">esmdyn+lazy", "hoisted:"+op+">esmdyn")
+	}
+	return out
 }
 
 func Run(r *core.Run) {
 	r.Assume("Node 20's ESM and CommonJS loaders are the native reference; a graph on which ModuleSem and Node disagree is excluded (SPEC-DRIFT), so a violation has two witnesses against esbuild")
-	r.Assume("values are compared by rendering (strings, undefined, functions, objects by sorted own enumerable keys without __esModule); the order of events is compared exactly, the error thrown by loading the entry point is compared by message")
-	r.Assume("not generated: TDZ reads, more than one import() per run, require() of an ES module in a cycle with an import (ERR_REQUIRE_CYCLE_MODULE), CommonJS named exports that cjs-module-lexer does not detect or that change after they were snapshotted, top-level await, direct eval, import.meta, sloppy-only code")
+	r.Assume("values are compared by rendering (strings, undefined, functions, objects by sorted own enumerable keys without __esModule, nesting cut at depth 3); the order of events is compared exactly, the error thrown by loading the entry point is compared by message")
+	r.Assume("not generated: TDZ reads, more than one import() per run, require() of an ES module in a cycle with an import (ERR_REQUIRE_CYCLE_MODULE), CommonJS named exports that cjs-module-lexer does not detect or that change after they were snapshotted (also behind export *), top-level await, direct eval, import.meta, sloppy-only code")
 	r.Assume("a CommonJS entry point bundled as esm exposes module.exports as the default export only (documented esbuild behaviour); only the default export is compared in that configuration")
 	if r.Replay != "" {
 		replayOne(r)
 		return
 	}
-	// generator configs (each is also a design check: the invariants of
-	// ModuleSem are checked on every state).  Quick: two small exhaustive
-	// slices and seeded simulation; thorough: the exhaustive slices in full.
+	// many short TLC runs side by side (<= 8 workers in total): keep every JVM's
+	// helper threads (GC, JIT) few, the defaults are sized for the whole machine
+	if os.Getenv("_JAVA_OPTIONS") == "" {
+		os.Setenv("_JAVA_OPTIONS", "-XX:ParallelGCThreads=2 -XX:CICompilerCount=2")
+	}
+	// Stage 1 generator configs (Mode "gen": graphs with feature labels).
 	gens := []genCfg{
-		{Config: "ModuleSem.qesm.cfg", Timeout: 900, Quota: 500, Quick: true},
-		{Config: "ModuleSem.qmixed.cfg", Timeout: 900, Quota: 500, Quick: true},
-		{Config: "ModuleSem.qstar.cfg", Timeout: 900, Quota: 400, Quick: true},
-		{Config: "ModuleSem.simmixed.cfg", Simulate: fmt.Sprintf("num=%d", r.Pick(300, 2000)), Depth: 300, Timeout: 1500, Quota: 2000},
-		{Config: "ModuleSem.simesm.cfg", Simulate: "num=1500", Depth: 300, Timeout: 1500, Thorough: true, Quota: 1000},
-		{Config: "ModuleSem.esm2.cfg", Timeout: 1500, Thorough: true, Quota: 2500},
-		{Config: "ModuleSem.mixed2.cfg", Timeout: 1500, Thorough: true, Quota: 3000},
-		{Config: "ModuleSem.cyc3.cfg", Timeout: 1500, Thorough: true, Quota: 1200},
-		{Config: "ModuleSem.star3.cfg", Timeout: 1500, Thorough: true, Quota: 1200},
-		{Config: "ModuleSem.cjs3.cfg", Timeout: 1500, Thorough: true, Quota: 1200},
+		// quick: five JVMs side by side, 2+2+1+1+1 workers, DataLoad's JVM has the eighth
+		{Config: "ModuleSem.gwrapE.cfg", Timeout: 900, Quota: r.Pick(260, 500), Workers: r.Pick(2, 0)},
+		{Config: "ModuleSem.qmixed.cfg", Timeout: 900, Quota: 300, Quick: true, Workers: 2},
+		{Config: "ModuleSem.qesm.cfg", Timeout: 900, Quota: 300, Quick: true, Workers: 1},
+		{Config: "ModuleSem.gwrapC.cfg", Timeout: 900, Quota: r.Pick(140, 400), Workers: r.Pick(1, 0)},
+		{Config: "ModuleSem.simmixed.cfg", Simulate: fmt.Sprintf("num=%d", r.Pick(100, 1200)), Depth: 40, Timeout: 1500, Quota: r.Pick(120, 400)},
+		{Config: "ModuleSem.simesm.cfg", Simulate: "num=800", Depth: 40, Timeout: 1500, Thorough: true, Quota: 300},
+		{Config: "ModuleSem.gwrapT.cfg", Timeout: 1500, Thorough: true, Quota: 900},
+		{Config: "ModuleSem.esm2.cfg", Timeout: 1500, Thorough: true, Quota: 600},
+		{Config: "ModuleSem.mixed2.cfg", Timeout: 1500, Thorough: true, Quota: 700},
+		{Config: "ModuleSem.cyc3.cfg", Timeout: 1500, Thorough: true, Quota: 300},
+		{Config: "ModuleSem.star3.cfg", Timeout: 1500, Thorough: true, Quota: 300},
+		{Config: "ModuleSem.cjs3.cfg", Timeout: 1500, Thorough: true, Quota: 300},
 	}
 	var active []genCfg
 	for _, gc := range gens {
@@ -833,36 +1171,52 @@ func Run(r *core.Run) {
 		active = append(active, gc)
 	}
 	// the generators run side by side (<= 8 TLC workers in total)
-	par, workers := 4, 2
+	par, workers := 5, 2
 	if r.Thorough() {
 		par, workers = 2, 4
 	}
-	results := make([][]*graphCase, len(active))
-	core.Parallel(len(active), par, func(i int) { results[i] = generate(r, active[i], workers) })
-	seen := map[string]bool{}
-	var all []*graphCase
-	for i, gc := range active {
-		var cases []*graphCase
-		for _, g := range results[i] {
-			if !seen[g.id] {
-				seen[g.id] = true
-				cases = append(cases, g)
-			}
+	// DataLoad's enumeration runs side by side with stage 1
+	contentsCh := make(chan []*content, 1)
+	go func() { contentsCh <- enumerateContents(r) }()
+	results := make([][]*graphSpec, len(active))
+	core.Parallel(len(active), par, func(i int) {
+		w := workers
+		if active[i].Workers > 0 {
+			w = active[i].Workers
 		}
-		r.Inc("graphs_generated_by_tlc", int64(len(cases)))
-		if gc.Quota > 0 && len(cases) > gc.Quota {
-			// a seeded subset, in a stable order
-			sort.Slice(cases, func(i, j int) bool { return cases[i].id < cases[j].id })
-			rnd := rand.New(rand.NewSource(r.Seed*7919 + int64(len(cases))))
-			rnd.Shuffle(len(cases), func(i, j int) { cases[i], cases[j] = cases[j], cases[i] })
-			cases = cases[:gc.Quota]
+		results[i] = generate(r, active[i], w)
+	})
+	sel, inhabited := selectGraphs(r, active, results, r.Pick(2, 3))
+	// Stage 2: the specification runs the selected graphs
+	all := runSpec(r, sel, r.Pick(4, 4), 2)
+	replayed := map[string]int{}
+	for _, g := range all {
+		for _, f := range g.Feat {
+			replayed[f]++
 		}
-		all = append(all, cases...)
 	}
-	r.Logf("%d graphs to replay", len(all))
+	var thin []string
+	for f := range inhabited {
+		if replayed[f] == 0 {
+			thin = append(thin, f)
+		}
+	}
+	sort.Strings(thin)
+	r.Set("features_replayed", replayed)
+	r.Set("features_generated_but_not_replayed", thin)
+	var missing []string
+	for _, f := range requiredFeatures() {
+		if replayed[f] == 0 {
+			missing = append(missing, f)
+		}
+	}
+	if len(missing) > 0 {
+		r.Infra("feature labels that the generator configurations must reach are not replayed: %s", strings.Join(missing, " "))
+	}
+	r.Logf("%d graphs to replay (%d of %d selected are outside the generated family); %d feature labels replayed, %d generated only", len(all), len(sel)-len(all), len(sel), len(replayed), len(thin))
 	runGraphs(r, all)
-	runDataLoaders(r)
-	r.Set("rule", "a case = one module graph of the bounded family generated by TLC from ModuleSem (<= N modules x <= K statements; kinds esm/cjs/json) whose spec-predicted trace agrees with Node's native loaders, replayed through api.Build in the selected format x platform x minify configurations; distinct by the hash of (kinds, bodies); non-trivial = the graph has a cycle or self-import, an export star, mixes ESM and CommonJS, or imports a data file")
+	runDataLoaders(r, <-contentsCh)
+	r.Set("rule", "a case = one module graph of the bounded family generated by TLC from ModuleSem (<= N modules x <= K statements; kinds esm/cjs/json and preset leaves) whose spec-predicted trace agrees with Node's native loaders, replayed through api.Build in the selected format x platform x minify configurations; distinct by the hash of (kinds, bodies); non-trivial = the graph has a cycle or self-import, an export star, mixes ESM and CommonJS, or imports a data file.  Data-loader cases: one (loader, content, importing syntax) triple of the family enumerated by TLC from DataLoad, distinct by these three")
 }
 
 func runGraphs(r *core.Run, all []*graphCase) {
@@ -948,7 +1302,7 @@ func replayOne(r *core.Run) {
 		r.Infra("replay file has no scenario")
 		return
 	}
-	g.id = core.Hash(map[string]interface{}{"k": g.Kinds, "b": g.Bodies})
+	g.id = graphID(g.Kinds, g.Bodies)
 	g.labels = labelsOf(g)
 	g.src = "replay"
 	p := &prepared{g: g, scheme: rec.Detail.Scheme, dir: filepath.Join(r.Scratch, "g", g.id), cfgs: []buildCfg{rec.Detail.Config}}
@@ -960,4 +1314,19 @@ func replayOne(r *core.Run) {
 
 func init() {
 	core.Register("C02", Run)
+}
+
+func firstLine(s string) string {
+	if i := strings.IndexByte(s, '\n'); i >= 0 {
+		return s[:i]
+	}
+	return s
+}
+
+func tailLines(s string, n int) string {
+	lines := strings.Split(s, "\n")
+	if len(lines) > n {
+		lines = lines[len(lines)-n:]
+	}
+	return strings.Join(lines, "\n")
 }
